@@ -31,9 +31,6 @@ Definition pred_of (k : case) : hres := handle (k_scn k) (fuel_for (conn_of k)) 
 Definition out_code (o : outcome) : N :=
   match o with Returned => 0 | Panicked => 1 | OutOfFuel => 2 | Blocked => 3 | Unmodelled => 9 end%N.
 
-Definition finished (o : outcome) : bool :=
-  match o with Returned | Panicked => true | _ => false end.
-
 (* write lengths are modelled for these services only *)
 Definition wbytes_modelled (s : svc) : bool :=
   match s with Ftp | Smtp => false | _ => true end.
